@@ -1036,6 +1036,9 @@ fn srv_main(a: &Args) {
             if k >= cases.len() {
                 break;
             }
+            if TIMEOUTS_SEEN.load(Ordering::SeqCst) > 25 {
+                continue; // dozens of sessions timed out (= dozens of violations): the verdict stands, do not spend hours on the rest
+            }
             if cases[k].extreme {
                 let slot = k % X_SERVERS;
                 let mut g = xsrvs[slot].lock().unwrap();
